@@ -37,7 +37,7 @@ ASSUMPTIONS = [
 SHARDS = {"quick": 16, "thorough": 16}
 TIMEOUT = {"quick": 900, "thorough": 3600}
 MIN_CASES = {"quick": 3000, "thorough": 3000}
-REQUIRED_COUNTERS = ["cells_judged", "mapped_class_raised", "wrong_state_rejected", "ip_pairings_cells", "ble_pairings_cells"]
+REQUIRED_COUNTERS = ["cells_judged", "mapped_class_raised", "wrong_state_rejected", "ip_pairings_cells", "ble_pairings_cells", "ble_transport_cells", "ip_transport_cells", "coap_transport_cells"]
 BLE_BUILT = True
 if not BLE_BUILT:
     REQUIRED_COUNTERS = [c for c in REQUIRED_COUNTERS if not c.startswith("ble_")]
@@ -288,6 +288,23 @@ def run(ctx) -> None:
             ctx.exhaustive_parts["ble add/remove pairing cell table"] = True
 
     vloop.run(pairings())
+
+    # the same table through the transports' own pair-setup drivers (BleDiscovery, IpDiscovery, CoAP do_pair_setup)
+    async def transport_cells():
+        from vf import setup_transports
+
+        j = 0
+        for transport in ("ble", "ip", "coap"):
+            for step in (2, 4, 6):
+                for err in (b"\x01", b"\x02", b"\x03", b"\x04", b"\x05", b"\x06", b"\x07", b"\x00", b"\xff"):
+                    for with_fields in (False, True):
+                        j += 1
+                        if (with_fields and err not in (b"\x02", b"\x06")) or not ctx.mine(j):
+                            continue
+                        await setup_transports.error_case(ctx, transport, step, err, with_fields, mapped_class(err), j)
+
+    vloop.run(transport_cells())
+    ctx.exhaustive_parts["transport-level pair-setup: step x error code x {BLE, IP, CoAP}"] = True
     ctx.notes["cells_total"] = len(cells) + len(pairings_cells()) * (2 if BLE_BUILT else 1)
 
 
@@ -298,6 +315,11 @@ def replay(ctx, d) -> None:
         step, err, st, sub, order, mode = d["cell"]
         cell = (step, err, st, tuple(sub), order, mode)
         run_cell(ctx, cell, all_cells().index(cell))
+    elif "transport_cell" in d:
+        from vf import setup_transports
+
+        t, step, err, wf = d["transport_cell"]
+        vloop.run(setup_transports.error_case(ctx, t, step, err, wf, mapped_class(err), 0))
     elif "ip_cell" in d:
         op, err, st, extra = d["ip_cell"]
         cell = (op, err, st, extra)
